@@ -87,10 +87,21 @@ func zzCheckItem(it *zzItem, xerr xerrors.XError, wantV int64, wantOK bool, what
 	}
 }
 
-func zzC18(nsteps, nkeys int, withReopen bool) {
+func zzC18(nsteps, nkeys int, withReopen, preseed bool) {
 	dir := zzverif.TempDir()
 	l := zzNewLedger(dir)
 	m := &zzModel{committed: []map[int]int64{{}}, cons: map[int]zzEntry{}, mem: map[int]zzEntry{}, memFuzzy: map[int]bool{}}
+	if preseed {
+		// version 1 already holds key 0 (with a symbolic value)
+		v0 := zzverif.NondetI64("seed.val")
+		if l.SetFinality(&zzItem{K: 0, V: v0}) != nil {
+			panic("seed")
+		}
+		if _, _, xerr := l.Commit(); xerr != nil {
+			panic(xerr)
+		}
+		m.committed = append(m.committed, map[int]int64{0: v0})
+	}
 	nops := 9
 	if withReopen {
 		nops = 10
@@ -243,6 +254,8 @@ func zzC18(nsteps, nkeys int, withReopen bool) {
 	zzverif.Reach("C18 end")
 }
 
-func ZZ_C18_Seq3() { zzC18(3, 2, true) }
-func ZZ_C18_Seq4() { zzC18(4, 2, true) }
-func ZZ_C18_Seq5() { zzC18(5, 2, false) }
+func ZZ_C18_Seq3()  { zzC18(3, 2, true, false) }
+func ZZ_C18_Seq3b() { zzC18(3, 2, true, true) }
+func ZZ_C18_Seq4()  { zzC18(4, 2, true, false) }
+func ZZ_C18_Seq4b() { zzC18(4, 2, false, true) }
+func ZZ_C18_Seq5()  { zzC18(5, 2, false, false) }
